@@ -151,6 +151,39 @@ inline Decoded decode_eth(const Bytes& f) {
     memcpy(r.mdst.b, &f[0], 6); memcpy(r.msrc.b, &f[6], 6); r.ethertype = et; r.ok = true; return r;
 }
 
+
+// ---------------------------------------------------------------- more encoders (UDP, ICMP, ICMPv6, DNS, 802.1Q)
+inline uint32_t pseudo_acc(const Addr& src, const Addr& dst, uint8_t proto, size_t len) {
+    uint32_t acc = csum_add(0, src.b, src.len); acc = csum_add(acc, dst.b, dst.len);
+    if (src.is6()) { uint8_t ph[8] = { (uint8_t)(len >> 24), (uint8_t)(len >> 16), (uint8_t)(len >> 8), (uint8_t)len, 0, 0, 0, proto }; acc = csum_add(acc, ph, 8); }
+    else { uint8_t ph[4] = { 0, proto, (uint8_t)(len >> 8), (uint8_t)len }; acc = csum_add(acc, ph, 4); }
+    return acc;
+}
+inline Bytes udp_bytes(uint16_t sport, uint16_t dport, const Bytes& payload, const Addr& src, const Addr& dst) {
+    Bytes b; put16(b, sport); put16(b, dport); put16(b, (uint16_t)(8 + payload.size())); put16(b, 0); putb(b, payload);
+    uint16_t c = csum_fin(csum_add(pseudo_acc(src, dst, 17, b.size()), b.data(), b.size())); if (c == 0) c = 0xffff; set16(b, 6, c); return b;
+}
+inline Bytes icmp_bytes(uint8_t type, uint8_t code, uint16_t id, uint16_t seq, const Bytes& rest) {
+    Bytes b; b.push_back(type); b.push_back(code); put16(b, 0); put16(b, id); put16(b, seq); putb(b, rest); set16(b, 2, inet_csum(b.data(), b.size())); return b;
+}
+inline Bytes icmp6_bytes(uint8_t type, uint8_t code, uint16_t id, uint16_t seq, const Bytes& rest, const Addr& src, const Addr& dst) {
+    Bytes b; b.push_back(type); b.push_back(code); put16(b, 0); put16(b, id); put16(b, seq); putb(b, rest);
+    set16(b, 2, csum_fin(csum_add(pseudo_acc(src, dst, 58, b.size()), b.data(), b.size()))); return b;
+}
+// DNS message with one question (name given as dotted string); response adds one A answer with a compression pointer
+inline Bytes dns_bytes(uint16_t id, bool response, const std::string& name, bool with_answer) {
+    Bytes b; put16(b, id); put16(b, response ? 0x8180 : 0x0100); put16(b, 1); put16(b, with_answer ? 1 : 0); put16(b, 0); put16(b, 0);
+    size_t a = 0; while (a <= name.size()) { size_t d = name.find('.', a); if (d == std::string::npos) d = name.size(); b.push_back((uint8_t)(d - a)); for (size_t i = a; i < d; ++i) b.push_back((uint8_t)name[i]); a = d + 1; }
+    b.push_back(0); put16(b, 1); put16(b, 1);
+    if (with_answer) { put16(b, 0xc00c); put16(b, 1); put16(b, 1); put32(b, 300); put16(b, 4); put32(b, 0x01020304); }
+    return b;
+}
+inline Bytes eth_vlan_bytes(const Mac& dst, const Mac& src, uint16_t vlan_tci, uint16_t type, const Bytes& payload, bool pad_min = true) {
+    Bytes b; putb(b, dst.b, 6); putb(b, src.b, 6); put16(b, 0x8100); put16(b, vlan_tci); put16(b, type); putb(b, payload);
+    if (pad_min) while (b.size() < 60) b.push_back(0);
+    return b;
+}
+
 // serial-number arithmetic (RFC 1982) on 32 bits
 inline int32_t seq_diff(uint32_t a, uint32_t b) { return (int32_t)(a - b); }
 
